@@ -26,7 +26,7 @@ const A_WRAP: &[&str] = &[" ", "a", "bc", "-", "\n", "é", "你", "d-e", "\t"];
 const A_BIG: &[&str] = &[" ", "a", "bc", "-", "\n", "é", "你", "中", "d-e", "\u{ad}", "\u{301}", "\u{200b}", "\u{a0}", "\u{3000}", "\r\n", "\r", "\t", "😂",
     "\x1b[31m", "\x1b[0m", "\x1b[1~", "\x1b[@", "\x1b]8;;x\x1b\\", "\x1b]0;a b\x07", "\x1b]8;;a-b\x1b\\"];
 const A_ADVERSARIAL: &[&str] = &[" ", "a", "-", "\n", "\r", "\t", "é", "你", "中", "\u{ad}", "\u{a0}", "\u{3000}", "\u{200b}", "\u{301}", "😂", "\x1b", "[", "]", "m", "~", "\x07", "\\"];
-const A_ANSI: &[&str] = &["a", " ", "你", "\u{301}", "\x1b[31m", "\x1b[0m", "\x1b[1~", "\x1b[@", "\x1b[?", "\x1b]8;;x\x1b\\", "\x1b]0;t\x07", "\x1b[", "\x1b", "m", "\\", "[", "\x7f", "?"];
+const A_ANSI: &[&str] = &["a", " ", "你", "\u{301}", "\x1b[31m", "\x1b[0m", "\x1b[1~", "\x1b[@", "\x1b[?", "\x1b]8;;x\x1b\\", "\x1b]0;t\x07", "\x1b[", "\x1b", "m", "\\", "[", "\x7f", "?", "]", "\x07"];
 const A_WORDS: &[&str] = &[" ", "a", "b", "-", "\t", "\u{a0}", "\u{200b}", "\u{2060}", "你", "中", "😂", "😭", "\u{ad}", "\n", "\x1b[31m", "\x1b[0m", ")", "é", "\u{3000}", "\x1b]8;;x\x1b\\", "\x1b]0;t\x07"];
 /// everything at once, for the sampled long-string passes: all whitespace kinds (incl. EM/EN SPACE, which share their UTF-8 lead
 /// bytes with each other and with the EM DASH), controls (VT, FF, NEL, DEL, a C1 control), zero-width and combining characters,
@@ -39,11 +39,11 @@ const A_WORD: &[&str] = &["a", "b", "-", "1", "你", "\u{301}", "é", "\x1b[31m"
 const A_INPLACE: &[&str] = &[" ", "a", "bc", "\n", "é", "你", "\r", "\t", "\x1b", "\x1b[31m"];
 const A_DEDENT: &[&str] = &[" ", "\t", "a", "\n", "\r\n", "b", "\u{3000}"];
 const A_INDENT: &[&str] = &[" ", "\t", "a", "\n", "\r", "é", "\u{3000}"];
-const A_UNFILL: &[&str] = &[" ", "a", "\n", "\r\n", ">", "-", "*", "é", "\r", "/"];
+const A_UNFILL: &[&str] = &[" ", "a", "\n", "\r\n", ">", "-", "*", "é", "\r", "/", ".", ","];
 const A_COLOUR_WORDS: &[&str] = &["ab", "c", "你好", "d-e", "fgh", "-"];
 /// lists of line widths for the dispatch contracts: one to four entries, with equal neighbours inside and at the end
 const WIDTH_LISTS: &[&str] = &["3", "5,9", "4,4", "2,2,9", "5,5,20", "9,3,3", "3,9,3,9", "2,2,2,7", "", "0,4"];
-const VOCAB: &[&str] = &["a", "bb", "ccc", "dddd", "é", "你好", "好"];
+const VOCAB: &[&str] = &["a", "bb", "ccc", "dddd", "é", "你好", "好", ".x", ",yy"];
 
 fn widths_small() -> Vec<usize> {
     vec![0, 1, 2, 3, 4, 6, 9, usize::MAX]
